@@ -159,4 +159,19 @@ META = {
         "stub": STUB_WAMP,
         "design_ref": "DESIGN.md section 4, C11",
     },
+    "C06": {
+        "title": "WAMP sessions end cleanly on every path and leave nothing pending",
+        "budgets": {"quick": (300000, 60), "thorough": (6000000, 1200)},
+        "variants": ALL_VARIANTS,
+        "rule": ("one run = one session class (ApplicationSession, the same with overrides that call up, new-API "
+                 "Session), a router that follows the session state machine (0-2 CHALLENGEs, WELCOME or ABORT, GOODBYE "
+                 "from either side, GOODBYE in the same segment as WELCOME) plus at most one illegal message, local "
+                 "leave()/disconnect()/call/publish/subscribe/register at any point, every user callback and listener "
+                 "drawn to return / raise / stay pending (resolved or failed later by the scheduler), close()/abort() "
+                 "completing later, transport loss at any step (cut mode), API calls after the end; non-trivial = "
+                 "joined, aborted or ended; distinct = hash of (action kind, session state) sequence"),
+        "real": REAL_WAMP,
+        "stub": STUB_WAMP,
+        "design_ref": "DESIGN.md section 4, C06",
+    },
 }
